@@ -511,6 +511,11 @@ func (f *c10Fix) digestText() (string, int) {
 // ---- projections -----------------------------------------------------------------------------------------
 
 func c10Reply(data []byte, rev *strings.Replacer) string {
+	// "a well-formed reply": first of all the frame is a JSON text - for every JSON reader, not only for the
+	// lenient lexer of the generated decoder (which e.g. does not look into strings of members it keeps raw)
+	if !json.Valid(data) {
+		return "RBad"
+	}
 	var m ServerMessage
 	if err := m.UnmarshalJSON(data); err != nil {
 		return "RBad"
@@ -545,6 +550,9 @@ func c10Reply(data []byte, rev *strings.Replacer) string {
 
 func c10Bystander(data []byte, senderPub string) string {
 	var m ServerMessage
+	if !json.Valid(data) {
+		return "BOther" // not a JSON text: nothing a bystander may legitimately receive
+	}
 	if err := m.UnmarshalJSON(data); err != nil {
 		return "BOther"
 	}
